@@ -8,9 +8,8 @@ package astdiff
 // non-nil pointer or interface, nothing below comments, object links and scopes; the result is a fresh,
 // well-formed tree (the shape invariant the walkers rely on).
 //@ func snapshot(v, cmap) (val)
-//@   requires typing: gt("ObjectPtrType") != nil && gt("CommentGroupPtrType") != nil && gt("ScopePtrType") != nil && gt("PosType") != nil && gt("NodeType") != nil
-//@   requires typing: forall w RV {rtype(w)} :: (rtype(w) == gt("PosType") ==> rvIface(w).typ == dyn("go/token.Pos")) && (timplements(rtype(w), gt("NodeType")) ==> implements(rvIface(w), "go/ast.Node") && (kind(w) == 22 || kind(w) == 20))
-//@   requires typing: tkind(gt("ObjectPtrType")) == 22 && tkind(gt("CommentGroupPtrType")) == 22 && tkind(gt("ScopePtrType")) == 22 && tkind(gt("PosType")) != 25 && tkind(gt("PosType")) != 22 && tkind(gt("PosType")) != 20
+//@   requires typing: snapEnvOK()
+//@   unfold snapEnvOK() == snapTyping()
 //@   requires typing: cmap == nil || cmapTyped(cmap)
 //@   unfold cmapTyped(cmap) ==> forall c int {cmap[rvIface(v)][c]} :: 0 <= c && c < len(cmap[rvIface(v)]) ==> cmap[rvIface(v)][c] != nil && cgTyped(cmap[rvIface(v)][c]) && allocated(cmap[rvIface(v)][c].List.arr)
 //@   decreases rvSize(v)
@@ -32,15 +31,27 @@ package astdiff
 //@ func snapshot$1
 //@   inline
 
+// Before: the snapshot of the unchanged file, with the comments attached to its nodes (C17).
 //@ func Before(n, comments) (s)
-//@   trusted API-level summary (reflection walk building a fresh snapshot tree)
+//@   requires typing: snapEnvOK()
+//@   requires typing: comments == nil || cmapTyped(comments)
+//@   at call astdiff.snapshot assert [C17] the-file-as-it-is-with-its-comment-map: arg0 == rvOf(n) && arg1 == comments
 //@   assigns nothing
-//@   ensures s != nil
+//@   ensures s != nil && fresh(s) && s.value != nil && wfV(s.value)
 
+// Diff: the rewritten file is snapshotted anew (without a comment map: comments reach the new snapshot only
+// by being carried over from unchanged parts) and compared with the previous snapshot over the whole
+// extent of the previous one; changed regions go to the changelog handed in (C17).
 //@ func (s *Snapshot) Diff(n, cl) (s2)
-//@   trusted API-level summary; reports regions to cl (go-intervals sets: dependency state, not modelled) and builds a fresh snapshot
-//@   assigns nothing
-//@   ensures s2 != nil
+//@   requires typing: snapEnvOK()
+//@   unfold snapEnvOK() == snapTyping()
+//@   requires s.value != nil && wfV(s.value) && cl != nil
+//@   unfold wfV(s.value) == wfVBody(s.value)
+//@   at call astdiff.snapshot assert [C17] comments-reach-the-new-snapshot-only-by-carry-over: arg1 == nil
+//@   at call (astdiff.changeFinder).Walk assert [C17] old-against-new-over-the-whole-old-extent: arg1 == s.value && arg2 == ret("astdiff.snapshot", 0) && arg0.cl == cl && arg0.Region.Pos == s.value.pos && arg0.Region.End == s.value.end
+//@   assigns allof("F.S_astdiff_value.Comments")
+//@   ensures s2 != nil && fresh(s2) && s2.value != nil && wfV(s2.value)
+//@   ensures [C17] the-new-snapshot-is-of-the-rewritten-file: s2.value == ret("astdiff.snapshot", 0)
 
 // Comments attached to a node that lie entirely before it / start at or after its end (a trailing
 // comment that abuts the node counts as trailing).
